@@ -413,6 +413,9 @@ def gen_kw(f, key, cgen=None):
         bound = N.gen_bound_params(key, ic)
         if bound:
             kw["params"] = bound
+        helpers = N.exclusive_helpers(key)
+        if helpers:
+            kw["inline"] = lambda n, hs=helpers: True if n in hs else None
     return kw
 
 
